@@ -648,10 +648,10 @@ pub fn gen_desc(r: &mut StdRng, o: &GenOpts) -> Desc {
         }
     }
     // ---- globals
-    let nglob = r.gen_range(0..5);
+    let nglob = if o.exec_subset { r.gen_range(1..5) } else { r.gen_range(0..5) };
     for _ in 0..nglob {
         let ty = if o.exec_subset { T::I32 } else { *vts.choose(r).unwrap() };
-        let mutable = r.gen_bool(0.6);
+        let mutable = r.gen_bool(if o.exec_subset { 0.85 } else { 0.6 });
         // initialiser: const | global.get of an imported immutable global of the same type | ref.func | ref.null
         let imp_same: Vec<u32> = d.globals.iter().enumerate().filter(|(_, g)| g.imported && !g.mutable && g.ty == ty).map(|(i, _)| i as u32).collect();
         let init = if !imp_same.is_empty() && r.gen_bool(0.4) {
@@ -813,8 +813,9 @@ pub fn gen_desc(r: &mut StdRng, o: &GenOpts) -> Desc {
         }
         d.exports.push(ExportD { name: n, kind, idx });
     };
+    let ex = o.exec_subset;
     for i in 0..d.funcs.len() {
-        if r.gen_bool(if i >= nimp { 0.5 } else { 0.15 }) {
+        if r.gen_bool(if i >= nimp { if ex { 1.0 } else { 0.5 } } else { 0.15 }) {
             add_export(&mut d, r, we::ExportKind::Func, i as u32);
         }
     }
@@ -823,17 +824,17 @@ pub fn gen_desc(r: &mut StdRng, o: &GenOpts) -> Desc {
         add_export(&mut d, r, we::ExportKind::Func, last);
     }
     for i in 0..d.tables.len() {
-        if r.gen_bool(0.3) {
+        if r.gen_bool(if ex { 0.9 } else { 0.3 }) {
             add_export(&mut d, r, we::ExportKind::Table, i as u32);
         }
     }
     for i in 0..d.mems.len() {
-        if r.gen_bool(0.4) {
+        if r.gen_bool(if ex { 0.9 } else { 0.4 }) {
             add_export(&mut d, r, we::ExportKind::Memory, i as u32);
         }
     }
     for i in 0..d.globals.len() {
-        if r.gen_bool(0.3) && (ft.mutable_global || !d.globals[i].mutable) {
+        if r.gen_bool(if ex { 0.9 } else { 0.3 }) && (ft.mutable_global || !d.globals[i].mutable) {
             add_export(&mut d, r, we::ExportKind::Global, i as u32);
         }
     }
@@ -1326,7 +1327,14 @@ impl<'a> BodyGen<'a> {
             6..=15 => {
                 let t = *vts.choose(self.r).unwrap();
                 self.expr(t, depth + 1);
-                self.out.push(I::Drop);
+                // in the executable subset a computed value should be observable: prefer a global over dropping it
+                let gs: Vec<u32> = self.d.globals.iter().enumerate().filter(|(_, g)| g.mutable && g.ty == t).map(|(i, _)| i as u32).collect();
+                if self.o.exec_subset && !gs.is_empty() && self.r.gen_bool(0.8) {
+                    let g = *gs.choose(self.r).unwrap();
+                    self.out.push(I::GlobalSet(g));
+                } else {
+                    self.out.push(I::Drop);
+                }
             }
             16..=27 => {
                 if self.locals.is_empty() {
